@@ -767,6 +767,11 @@ class Laplacian(PointwiseTensorFieldOperator):
 
         The laplacian is self-adjoint, so this returns ``self``.
         """
+        if not self.is_linear:
+            raise ValueError('operator with nonzero pad_const ({}) is not'
+                             ' linear and has no adjoint'
+                             ''.format(self.pad_const))
+
         return Laplacian(self.range, self.domain,
                          pad_mode=self.pad_mode, pad_const=0)
 
